@@ -512,7 +512,7 @@ def _hds(rng, ctx, c, cnt, sample, res):
     c.eq("size", v.size, meta["size"])
     c.eq("cluster_size", v.cluster_size, ms * SECTOR)
     c.eq("in_use", v.in_use, in_use)
-    c.eq("data_offset (sectors)", v.data_offset, meta["first_block"] // SECTOR)
+    c.eq("data_offset (sectors)", v.data_offset, meta["first_block_field"])
     c.eq("header.m_Sectors", v.header.m_Sectors, ms)
     c.eq("header.m_Size", v.header.m_Size, n)
     c.eq("bat", list(v.bat), meta["bat"])
